@@ -66,10 +66,20 @@ class Box:
         new_start_coord = np.subtract(new_start_coord, concat_offsets)
         new_end_coord = np.subtract(new_end_coord, concat_offsets)
 
+        # The height and width of a fused split/slice read are calculated in the coordinates of the slice (the region given
+        # by the read offset and the read shape) and moved to the coordinates of the whole ifm at the end
+        ifm_height = ifm_shape.height
+        ifm_width = ifm_shape.width
+        hw_offset = [0] * len(new_start_coord)
         if split_offset is not None:
             for idx in range(len(split_offset)):
-                new_start_coord[idx] += split_offset[idx]
-                new_end_coord[idx] += split_offset[idx]
+                if idx in (len(split_offset) - 3, len(split_offset) - 2):
+                    hw_offset[idx] = split_offset[idx]
+                else:
+                    new_start_coord[idx] += split_offset[idx]
+                    new_end_coord[idx] += split_offset[idx]
+            ifm_height = split_shape.height
+            ifm_width = split_shape.width
 
         if npu_block_type in (NpuBlockType.ConvolutionMxN, NpuBlockType.VectorProduct, NpuBlockType.ReduceSum):
             # these types of operations do a "dot product" or sum over the entire IFM
@@ -83,24 +93,18 @@ class Box:
         if len(new_end_coord) >= 1:
             new_end_coord[-1] = min(new_end_coord[-1], ifm_shape.depth)
         if len(new_end_coord) >= 2:
-            new_end_coord[-2] = min(new_end_coord[-2], ifm_shape.width * upscaling_factor)
+            new_end_coord[-2] = min(new_end_coord[-2], ifm_width * upscaling_factor)
         if len(new_end_coord) >= 3:
             original_end_coord = list(new_end_coord)
-            new_end_coord[-3] = min(new_end_coord[-3], ifm_shape.height * upscaling_factor)
+            new_end_coord[-3] = min(new_end_coord[-3], ifm_height * upscaling_factor)
 
         pad_top = 0
         pad_bottom = 0
         if strides is not None and skirt is not None:
             if len(new_start_coord) >= 2:
                 stride = strides[2]
-                # if the current op was combined with a split slice read then the valid ifm range is given by the output
-                # of the split op (which is defined by the read offset and the read shape)
-                if split_offset is None:
-                    new_start_coord[-2] = max(new_start_coord[-2] * stride - skirt[1], 0)
-                    new_end_coord[-2] = min(new_end_coord[-2] * stride + skirt[3], ifm_shape.width)
-                else:
-                    new_start_coord[-2] = max(new_start_coord[-2] * stride - skirt[1], split_offset[-2])
-                    new_end_coord[-2] = min(new_end_coord[-2] * stride + skirt[3], split_offset[-2] + split_shape[-2])
+                new_start_coord[-2] = max(new_start_coord[-2] * stride - skirt[1], 0)
+                new_end_coord[-2] = min(new_end_coord[-2] * stride + skirt[3], ifm_width)
 
             if len(new_start_coord) >= 3:
                 stride = strides[1]
@@ -112,31 +116,35 @@ class Box:
                 pad_top = max(0, 0 - new_start_coord[-3]) + skirt_top_remainder
                 new_start_coord[-3] = max(new_start_coord[-3], 0)
 
-                if (new_end_coord[-3] * stride + skirt[2]) > (ifm_shape.height * upscaling_factor):
+                if (new_end_coord[-3] * stride + skirt[2]) > (ifm_height * upscaling_factor):
                     # pad_bottom is calculated based the diff between the end position of the weight kernel,
                     # after last stride and the ifm height.
-                    if upscaling_factor != 1 and original_end_coord[-3] > ifm_shape.height * upscaling_factor:
+                    if upscaling_factor != 1 and original_end_coord[-3] > ifm_height * upscaling_factor:
                         # Special case for Transpose Convolution with VALID padding.
-                        pad_bottom = original_end_coord[-3] - (ifm_shape.height * upscaling_factor)
+                        pad_bottom = original_end_coord[-3] - (ifm_height * upscaling_factor)
                     else:
                         k_start = new_start_coord[-3] - pad_top
-                        pad_bottom = max(
-                            0, k_start + total_stride + k_dilated_height - (ifm_shape.height * upscaling_factor)
-                        )
+                        pad_bottom = max(0, k_start + total_stride + k_dilated_height - (ifm_height * upscaling_factor))
 
                 # Adjust for upscaling
                 new_start_coord[-3] = max(new_start_coord[-3] // upscaling_factor, 0)
                 new_end_coord[-3] = new_end_coord[-3] * stride + skirt[2] + (skirt[2] % upscaling_factor)
-                new_end_coord[-3] = max(min(new_end_coord[-3] // upscaling_factor, ifm_shape.height), 1)
+                new_end_coord[-3] = max(min(new_end_coord[-3] // upscaling_factor, ifm_height), 1)
 
         # Wrap the IFMs of broadcasted binary elementwise ops
         # at the limits of the non-broadcasted volumes
         # Non-broadcasted ops aren't affected by the wrapping
         if op_type is not None and op_type.is_binary_elementwise_op():
             tmp = list(ifm_shape)
+            if len(tmp) >= 3:
+                tmp[-3] = ifm_height
+                tmp[-2] = ifm_width
             one = Shape4D(1, 1, 1, 1)
             new_start_coord = Box.wrap(new_start_coord, tmp)
             new_end_coord = Box.wrap(Shape4D(list(new_end_coord)) - one, tmp) + one
+
+        new_start_coord = [int(c + o) for c, o in zip(new_start_coord, hw_offset)]
+        new_end_coord = [int(c + o) for c, o in zip(new_end_coord, hw_offset)]
 
         return Box(new_start_coord, new_end_coord), pad_top, pad_bottom
 
